@@ -128,7 +128,18 @@ REUSE_MENU = [opx.MENU_STATIC[0], opx.MENU_STEPS[0], opx.step_req("s1", ["a"], [
               opx.MENU_STATIC[1]]
 
 
+# a step that is running again (its input changed) when its creator fails: it completes while it
+# is detached, with unchanged output content, and is recycled later. The search starts from the
+# state in which the re-declared step and its creator both run.
+DETFIN_MENU = [opx.MENU_STATIC[0], opx.MENU_STEPS[0]]
+DETFIN_ROOT = [("start", ()), ("req", "./plan.py", DETFIN_MENU[0]), ("req", "./plan.py", DETFIN_MENU[1]),
+               ("exit", "s1", "ok"), ("kill",), ("fs", "change", "a"), ("start", ()),
+               ("req", "./plan.py", DETFIN_MENU[0]), ("req", "./plan.py", DETFIN_MENU[1])]
+
+
 def machine_for(kind, check):
+    if kind == "detfin":
+        return opx.Machine(menu=DETFIN_MENU, check=check, targets_menu=((),), exits=["ok", "fail"], fs_events=False)
     if kind == "reuse":
         return opx.Machine(menu=REUSE_MENU, check=check, targets_menu=((),), exits=["ok"], fs_events=False)
     if kind == "restore":
@@ -168,6 +179,9 @@ def jobs(tier, seed):
 
         n = len(opx.FULL_MENU) - len(opx.MENU_MALFORMED)
         kinds += [(f"pair:{i}:{j}", 6) for i, j in itertools.combinations(range(n), 2)]
+    m = machine_for("detfin", None)
+    for root in opx.split_frontier(m, DETFIN_ROOT, 1):
+        out.append({"kind": "detfin", "root": root, "depth": 4 if tier == "quick" else 6})
     for kind, depth in kinds:
         if kind.startswith("pair:"):
             out.append({"kind": kind, "root": [("start", ())], "depth": depth})
